@@ -92,7 +92,7 @@ def mistakeRun (target : Nat) (rate : K) (vol ttl : Nat) (price : Nat → K) :
 window, counted from the start of its session -/
 def fshockHook (id event : Nat) (sessionStart trigger length target : Nat) : Hooks.Hook :=
   { id := id, event := event, kind := .marketBefore,
-    times := some ((List.range length).map (fun i => sessionStart + trigger + i)),
+    times := some ((List.range length).map (fun i => ((sessionStart + trigger + i : Nat) : Int))),
     cls := none, inst := some target }
 
 end Pams.Events
